@@ -457,6 +457,33 @@ func runC15(p *an.Prog, r *an.Run, tier string) {
 		r.Check(okG && n > 0, "assert-panic-div", "intervalCredit-divisor", ic.Pos(), "the billing division is reached only with Interval > 0", "intervalCredit divides by Interval without a dominating Interval > 0 check at a call site")
 	}
 
+	// ---- reflect-arity: a reflective method call panics on a wrong argument count (e.g. absent/null params parse to an empty list)
+	if mc := p.Method("jsonrpc2", "Method", "Call"); mc != nil {
+		var why []string
+		var reflCall ssa.CallInstruction
+		for _, c := range an.Calls(mc, false) {
+			if f := an.CallObj(c); f != nil && f.Name() == "Call" && an.RecvNamed(f) != nil && an.RecvNamed(f).Obj().Name() == "Value" {
+				reflCall = c
+			}
+		}
+		if reflCall == nil {
+			why = append(why, "Method.Call does not invoke the method reflectively")
+		} else {
+			okCnt := false
+			for _, cr := range ctrlRels(reflCall.Block()) {
+				_, l1 := an.LenOf(cr.L)
+				_, l2 := an.LenOf(cr.R)
+				if l1 && l2 && cr.Op == token.EQL {
+					okCnt = true
+				}
+			}
+			if !okCnt {
+				why = append(why, "the reflective call at "+p.Pos(reflCall.Pos())+" is not guarded by len(args) == len(ArgTypes): a request without params (which parses to an empty argument list) makes reflect panic in the per-request goroutine")
+			}
+		}
+		r.Check(len(why) == 0, "reflect-arity", an.FuncName(mc), mc.Pos(), "argument count checked before reflect.Value.Call", "%s", strings.Join(why, "; "))
+	}
+
 	// ---- reply-id
 	checkReplyID(p, r)
 
